@@ -98,7 +98,7 @@ CLAIMED = {
                  "(i) the SegmentByView/SegmentBySinogram conversions move rows between [axial][view] and [view][axial] order (row loops and constructor loops under loop contracts); the constructor of ProjDataInMemory and ProjDataFromStream::activate_TOF establish the TOF part of the layout description. Not decided: order inside the one "
                  "block of set_segment(by view) in view order, on-disk number type and byte order (write_data/read_data are stubs), the rest of the Interfile "
                  "header round trip (keyword parsing, the two std::sort calls of find_segment_sequence: assumed), that a flushed fstream is visible to "
-                 "another process (OS behaviour; exercised natively by the replay driver)."),
+                 "another process (OS behaviour; exercised natively by the replay driver). Also decided: every value inserted by write_basic_interfile_PDFS_header goes into the header stream in a number format that can be read back (typestate over the function's control skeleton)."),
         "note": ("trusted: cbmc 6.11.0 + kissat; at most 5 segments and 3 TOF bins per proof; segment_sequence/timing_poss_sequence are permutations and "
                  "offset_3d_data is one TOF block (constructors, assumed); the equality of the distributed closed form (verified against the code) and "
                  "the mixed-radix form (used by the lemmas) is distributivity of integer multiplication: discharged by CBMC for power-of-two sizes only, "
